@@ -1299,3 +1299,20 @@ Lemma view_nextBytes_spec v n :
                   vbytes v' = skipn (Z.to_nat n) (vbytes v)) /\
   (view_nextBytes v n = Panic <-> n < 0 \/ vlen v < n).
 Proof. intros H. split; [apply view_nextBytes_ok; exact H|apply view_nextBytes_panic_iff; exact H]. Qed.
+
+(* a freshly constructed VectorisedView (with the right size) is a well-formed one-object world:
+   the starting point of every history of C16_history_refines *)
+Lemma world_init_wf h vs :
+  Forall wf_view vs ->
+  exists h' vv, newVectorisedView h (sumlen vs) vs = (h', vv) /\
+    wf_world (mkW h' [vv]) /\ wabs (mkW h' [vv]) = [concat (map vbytes vs)].
+Proof.
+  intros Hw.
+  destruct (newVectorisedView_spec h (sumlen vs) vs Hw) as (h' & vv & E & _ & Hb & _ & Hwf & _).
+  exists h', vv. split; [exact E|]. split; [split|].
+  - intros i x Hx. destruct i as [|i]; [|destruct i; discriminate]. inversion Hx; subst.
+    apply Hwf. reflexivity.
+  - intros i j vi vj Hi Hj Hij. destruct i as [|i]; [|destruct i; discriminate].
+    destruct j as [|j]; [lia|destruct j; discriminate].
+  - unfold wabs. cbn [map wobjs wheap]. now rewrite Hb.
+Qed.
